@@ -647,12 +647,13 @@ pub const API_IS_MATCH: u8 = 6;
 /// One fallible API: `Err` iff the predicate holds; never a panic. (That a
 /// constructed iterator never fails later is `iter_never_fails`.)
 #[cfg(kani)]
-pub fn reject_fallible<C: Case, const N: usize, const API: u8>(ac: &AhoCorasick) {
+pub fn reject_fallible<C: Case, const N: usize, const API: u8, const SP: bool>(ac: &AhoCorasick) {
     let hay: [u8; N] = any();
     let an: bool = any();
     let has_empty = C::NPATS > 0 && C::MINLEN == 0;
-    // every valid span, including the "done" one with start = end + 1
-    let (s, e) = any_span_or_done(N);
+    // SP: every valid span, including the "done" one with start = end + 1
+    // (the NFA-kind instances keep the full span: with a symbolic one they exhaust 16 GB)
+    let (s, e) = if SP { any_span_or_done(N) } else { (0, N) };
     let inp = Input::new(&hay[..]).span(s..e).anchored(anch(an));
     let want = rejected(C::SK, C::MK, has_empty, an, API);
     match API {
@@ -711,11 +712,11 @@ pub fn reject_replace<C: Case>(ac: &AhoCorasick) {
 /// configuration they never return (the harness is `should_panic` and the
 /// "returned normally" witness must be unsatisfiable). REJ selects the half.
 #[cfg(kani)]
-pub fn reject_infallible<C: Case, const N: usize, const API: u8, const REJ: bool>(ac: &AhoCorasick) {
+pub fn reject_infallible<C: Case, const N: usize, const API: u8, const REJ: bool, const SP: bool>(ac: &AhoCorasick) {
     let hay: [u8; N] = any();
     let an: bool = any();
     let has_empty = C::NPATS > 0 && C::MINLEN == 0;
-    let (s, e) = any_span_or_done(N);
+    let (s, e) = if SP { any_span_or_done(N) } else { (0, N) };
     let inp = Input::new(&hay[..]).span(s..e).anchored(anch(an));
     assume(rejected(C::SK, C::MK, has_empty, an, if API == API_IS_MATCH { API_FIND } else { API }) == REJ);
     match API {
